@@ -61,7 +61,7 @@ def stepLine (_ : Unit) (line : String) : Unit × String :=
       | none => "bad-args"
     | ["dispk", f, as, ks] =>
       match (if as = "-" then some [] else (as.splitOn ";").mapM parseArg), (ks.splitOn ";").mapM parseArg with
-      | some args, some kwops => showOutcome (dispatchK T f args kwops ())
+      | some args, some kwops => showOutcome (dispatchKN LinOp.Generated.C15.kwNormalised T f args kwops ())
       | _, _ => "bad-args"
     | ["val", f, xa, ya, al, xs, ys] =>
       match parseArg xa, parseArg ya, parseMat? xs, parseMat? ys with
